@@ -804,6 +804,7 @@ func reportCommand(c *run.Ctx, r *kit.Rng, s *kit.Summary) {
 	st := &kit.Stream{Name: "c10.report"}
 	stT := &kit.Stream{Name: "c10.report_text"}
 	stL := &kit.Stream{Name: "c10.loop"}
+	stJ := &kit.Stream{Name: "c10.report_json_layout"}
 	for i, j := range jobs {
 		s.Case(fmt.Sprintf("report:%d:%d", i, len(j.h.Results)), len(j.h.Results) > 1)
 		if outs[j.opJ] != "ok" {
@@ -837,6 +838,13 @@ func reportCommand(c *run.Ctx, r *kit.Rng, s *kit.Summary) {
 				Input: j.h, Expected: lib, Observed: jl})
 		}
 		st.Add(opLine(j.h), jl)
+		// member names and their order in the document
+		if flat, err := flattenJSON(lines[len(lines)-1]); err == nil {
+			stJ.Add(fmt.Sprintf("c10.json %d %d %d %d %s", int64(m.Latencies.P50), int64(m.Latencies.P90), int64(m.Latencies.P95), int64(m.Latencies.P99),
+				strings.TrimPrefix(opLine(j.h), "c10.run ")), flat)
+		} else {
+			stJ.Add("c10.json 0 0 0 0 0", "unparsable "+err.Error())
+		}
 		// the loop of the command: every report it wrote, periodic ones included
 		checkLoop(s, stL, j.h, lines)
 		os.Remove(j.out)
@@ -874,6 +882,7 @@ func reportCommand(c *run.Ctx, r *kit.Rng, s *kit.Summary) {
 	diff(st, c, s)
 	diff(stT, c, s)
 	diff(stL, c, s)
+	diff(stJ, c, s)
 }
 
 // ---------------------------------------------------------------- main
